@@ -81,3 +81,50 @@ func fbOK(p *PFromBody, i int, s int) bool {
 func fbWithin(p *PFromBody, hi int) bool {
 	return within(p.Name, hi) && within(p.URI, hi) && within(p.Tag, hi) && within(p.Params, hi) && within(p.V, hi)
 }
+
+// fbZero: the value is in the state of a freshly created object.
+func fbZero(p *PFromBody) bool { return *p == PFromBody{} }
+
+// curPAI / curContact: the slot the list parser is working on.
+func curPAI(c *PPAIs) *PFromBody {
+	if c.N < len(c.Vals) {
+		return &c.Vals[c.N]
+	}
+	return &c.last
+}
+
+func curContact(c *PContacts) *PFromBody {
+	if c.N < len(c.Vals) {
+		return &c.Vals[c.N]
+	}
+	return &c.last
+}
+
+// slotOK: the slot in progress is a legal (not finished) suspended state at offs whose
+// value, if already started, begins at or after the list's LastHVal.
+func slotOK(p *PFromBody, offs int, last PField, n int) bool {
+	return fbOK(p, offs, p.soffs) && (p.state == fbInit || n == 0 || last.Offs <= p.V.Offs)
+}
+
+func paiOK(c *PPAIs, offs int) bool {
+	return 0 <= c.N && c.N <= offs && within(c.LastHVal, offs) && (c.N >= len(c.Vals) || fbZero(&c.last)) &&
+		fbOK(&c.last, offs, c.last.soffs) &&
+		(c.N >= len(c.Vals) || (c.Vals[c.N].state != fbFIN && slotOK(&c.Vals[c.N], offs, c.LastHVal, c.N))) &&
+		(c.N < len(c.Vals) || c.last.state == fbFIN || slotOK(&c.last, offs, c.LastHVal, c.N)) &&
+		(c.N != 0 || fbZero(&c.Vals[1]))
+}
+
+func contOK(c *PContacts, offs int) bool {
+	return 0 <= c.N && c.N <= offs && within(c.LastHVal, offs) && (c.N >= len(c.Vals) || fbZero(&c.last)) && sep(c, c.Vals) &&
+		fbOK(&c.last, offs, c.last.soffs) &&
+		(c.N >= len(c.Vals) || (c.Vals[c.N].state != fbFIN && slotOK(&c.Vals[c.N], offs, c.LastHVal, c.N))) &&
+		(c.N < len(c.Vals) || c.last.state == fbFIN || slotOK(&c.last, offs, c.LastHVal, c.N)) &&
+		forall(c.N+1, len(c.Vals), func(k int) bool { return fbZero(&c.Vals[k]) })
+}
+
+// sep reports that the memory of a and b (pointees of pointers, backing arrays of slices up to
+// their capacity) does not overlap. The verifier interprets it over its memory model.
+func sep(a, b interface{}) bool { return sepImpl(a, b) }
+
+// sameSlice reports that two slices have the same backing array position, length and capacity.
+func sameSlice(a, b interface{}) bool { return sameSliceImpl(a, b) }
